@@ -81,18 +81,18 @@ Fixpoint spec_meta (ops : list op) : list (list (N * N)) :=
 Fixpoint nodupb (l : list N) : bool := match l with [] => true | x :: t => negb (existsb (N.eqb x) t) && nodupb t end.
 
 (* ---- what a valid bug guarantees about the ids of its operations ----
-   ids are (rank of the first 14 characters, rank of the full id).  In a valid bug
-     - the full ids of the operations are pairwise distinct,
-     - so are their first 14 characters (combined ids keep no more of an operation id),
-     - an edit that names an operation of the bug by its full id names it by its first 14 characters too (both
-       components are ranks of the same string: equal strings have equal prefixes).
-   "No later create operation re-uses the first id" is a consequence of the first point (valid_ids_no_recreate in
-   SnapSpecProofs.v). *)
+   ids are (rank of the first 14 characters, rank of the full id).  In a valid bug the full ids of the operations are
+   pairwise distinct (an id is the hash of the operation's content, nonce included).  NOTHING is assumed about their
+   first 14 characters: two operations of a bug may share them (a 2^28 birthday search produces such a pair), and an
+   edit names its target by the full id.  "No later create operation re-uses the first id" is a consequence
+   (valid_ids_no_recreate in SnapSpecProofs.v). *)
 Definition op_ids (ops : list op) : list opid := map op_id ops.
 Definition edit_targets (ops : list op) : list opid :=
   flat_map (fun o => match o with OEditComment _ _ t _ _ => [t] | _ => [] end) ops.
+Definition valid_ids (ops : list op) : bool := nodupb (map snd (op_ids ops)).
+(* what the interpretation needed while edits were resolved through combined ids (SnapTrunc.v): distinct heads, and
+   targets whose head agrees with their full id *)
 Definition coherent_targets (ops : list op) : bool :=
   forallb (fun t => forallb (fun a => implb (id_eqb a t) (tgt_match a t)) (op_ids ops)) (edit_targets ops).
-Definition valid_ids (ops : list op) : bool :=
-  nodupb (map snd (op_ids ops)) && nodupb (map fst (op_ids ops)) && coherent_targets ops.
+Definition heads_distinct (ops : list op) : bool := nodupb (map fst (op_ids ops)).
 Definition is_create (o : op) : bool := match o with OCreate _ _ _ _ _ => true | _ => false end.
